@@ -18,18 +18,18 @@
 /// logic.
 
 #[test]
-fn kani_concrete_playback_c12_value_plain_3_14548177879032859978() {
+fn kani_concrete_playback_c12_value_plain_3_9338587565527805983() {
     let concrete_vals: Vec<Vec<u8>> = vec![
-        // 43
-        vec![43],
-        // 95
-        vec![95],
+        // 48
+        vec![48],
+        // 88
+        vec![88],
         // 50
         vec![50],
         // 1
         vec![1],
-        // 1
-        vec![1],
+        // 0
+        vec![0],
     ];
     kani::concrete_playback_run(concrete_vals, c12_value_plain_3);
 }
